@@ -24,6 +24,9 @@ BUDGET = {
     "thorough": {"examples": 12000, "wall_s": 900, "shards": 16},
 }
 
+EXTRA_STRATEGIES = poolprops.real_extra(4, 64)
+CASE_TIMEOUT_S = 200
+
 
 def strategy(tier):
     return poolprops.history(max_steps=25 if tier == "quick" else 40)
